@@ -38,7 +38,7 @@ def c11(a):
     br = max(50, pr // 7) if a.runs else (1500 if a.tier == "quick" else 100000)
     budget = a.budget or (75 if a.tier == "quick" else 1800)
     cat = 48 if a.tier == "quick" else 512
-    return T.run_thread_check("C11", a.tier, [T.Part("blocks_sim", "tsan", br, cat), T.Part("pool_sim", "tsan", pr)], budget, "DESIGN.md §4.1 C11",
+    return T.run_thread_check("C11", a.tier, [T.Part("blocks_sim", "tsan", br, cat), T.Part("blocks_sim", "tsan", 96 if a.tier == "quick" else 3000, cat, cold=True), T.Part("pool_sim", "tsan", pr)], budget, "DESIGN.md §4.1 C11",
                               ASSUME_THREADS + ["ThreadSanitizer's happens-before analysis (bounded shadow history) is the race oracle; the scheduler's baton hand-over is invisible to it"],
                               REAL_VS_STUB_THREADS, det_sample=400 if a.tier == "quick" else 3000)
 
